@@ -463,6 +463,13 @@ func checkC17(c *checkCtx) {
 				if e.Start > e.T {
 					c.fail("C17.time", "future", fmt.Sprintf("exec %d: StartTime %v is later than the observation instant %v", v.ID, e.Start, e.T))
 				}
+				if e.Flags&FHasElapsed != 0 {
+					// elapsed times are the distance from the reported start times to now
+					c.cov("c17.elapsed_checked")
+					if e.Elapsed != e.T-e.Start || e.ElapsedAttempt != e.T-e.AttemptStart {
+						c.fail("C17.time", "elapsed", fmt.Sprintf("exec %d: at %q (t=%v) ElapsedTime=%v ElapsedAttemptTime=%v but StartTime=%v AttemptStartTime=%v", v.ID, e.String(), e.T, e.Elapsed, e.ElapsedAttempt, e.Start, e.AttemptStart))
+					}
+				}
 				if e.Kind == EvFnStart || e.Kind == EvFnEnd {
 					if e.AttemptStart < e.Start || e.AttemptStart > e.T {
 						c.fail("C17.time", "attempt-start", fmt.Sprintf("exec %d: AttemptStartTime %v outside [StartTime %v, now %v] at %q", v.ID, e.AttemptStart, e.Start, e.T, e.String()))
